@@ -331,7 +331,7 @@ def oracle(case, obs):
     r = float(case["radius"])
     sl, sa, tl, ta = obs["src_lons"], obs["src_lats"], obs["tgt_lons"], obs["tgt_lats"]
     single = obs["coord_dtype"] == "float32" or obs["tgt_coord_dtype"] == "float32" or obs.get("xyz_dtype") == "float32"
-    rel, ab = (1e-5, 8.0) if single else (1e-9, 1e-6)
+    rel, ab = (1e-5, 16.0) if single else (1e-9, 1e-6)
     res = obs["res"]
     M = len(tl)
     want_shape = list(obs["tgt_shape"]) + ([k] if k else [])
@@ -495,7 +495,7 @@ def check_xyz(ctx, case, obs, tags):
     if "error" in obs:
         return
     single = obs.get("xyz_dtype") == "float32" or obs["coord_dtype"] == "float32" or obs["tgt_coord_dtype"] == "float32"
-    tol = Decimal(4.0) if single else Decimal("1e-7")
+    tol = Decimal(6.0) if single else Decimal("1e-7")
     sv = [i for i, v in enumerate(obs["vii"]) if v]
     tv = [i for i, v in enumerate(obs["voi"]) if v]
     pairs = list(zip([(obs["src_lons"][i], obs["src_lats"][i]) for i in sv], obs["src_xyz"]))
